@@ -27,7 +27,10 @@ var (
 	iaX = addr.MustParseIA("1-ff00:0:110")
 	iaB = addr.MustParseIA("1-ff00:0:111")
 	iaM = addr.MustParseIA("1-ff00:0:112")
-	iaY = addr.MustParseIA("2-ff00:0:210")
+	// iaY differs from iaX only in the ISD, iaB/iaM differ from iaX only in the AS number: every ISD-AS comparison
+	// that drops one of the two components confuses two identifiers of the pool
+	iaY  = addr.MustParseIA("2-ff00:0:110")
+	iaB2 = addr.MustParseIA("2-ff00:0:111") // iaB in another ISD; never stored, only asked for
 	// all segment times are whole seconds well before the virtual clock's start (2000-01-01 = 946684800)
 	c27T0 = time.Unix(946_000_000, 0)
 )
@@ -78,7 +81,7 @@ func mkPdSeg(name string, id int, info time.Time, hops []hopSpec) *pdSeg {
 	return p
 }
 
-// pdPool builds the segment pool. Identities: P0 = X#1>B#2, P1 = X#3>M#5,6>B#4 (longer lifetime), P2 = Y#1>B#7
+// pdPool builds the segment pool. Identities: P0 = X#1>B#2, P1 = X#3>M#1,6>B#4 (longer lifetime), P2 = Y#1>B#7
 // (other ISD, interface number 1 like P0 but in another AS). Versions: v0 (T0), v1 (T0+1000 s, with a peer entry
 // at the last AS: interface B#9 and a different FullID), v2 (T0+2000 s, no peer entry) and vx: info timestamp
 // T0+3000 s but last AS entry signed at T0+500 s (newest info, but a version between v0 and v1), with peer entry.
@@ -96,7 +99,7 @@ func pdPool(thorough bool) []*pdSeg {
 			return h
 		}},
 		{"P1", func(peer bool) []hopSpec {
-			h := []hopSpec{{ia: iaX, out: 3, expTime: 10}, {ia: iaM, in: 5, out: 6, expTime: 10}, {ia: iaB, in: 4, expTime: 10}}
+			h := []hopSpec{{ia: iaX, out: 3, expTime: 10}, {ia: iaM, in: 1, out: 6, expTime: 10}, {ia: iaB, in: 4, expTime: 10}}
 			if peer {
 				h[2].peerIn, h[2].peerIA = 9, iaY
 			}
@@ -385,9 +388,10 @@ func pdDims(cfg *pdCfg) (ids [][][]byte, types [][]seg.Type, groups [][]uint64, 
 	ids = [][][]byte{nil, {p0}, {p1, p2}}
 	types = [][]seg.Type{nil, {seg.TypeUp}, {seg.TypeDown}, {seg.TypeCore}, {seg.TypeDown, seg.TypeCore}}
 	groups = [][]uint64{nil, {0}, {7}, {8}, {0, 8}}
-	intfs = [][]*query.IntfSpec{nil, {is(iaX, 1)}, {is(iaY, 1)}, {is(iaB, 9)}, {is(iaM, 5), is(iaB, 2)}, {is(iaB, 1)}}
-	starts = [][]addr.IA{nil, {iaX}, {addr.MustParseIA("2-0")}, {addr.MustParseIA("1-0")}, {iaY, iaX}, {iaB}}
-	ends = [][]addr.IA{nil, {iaB}, {addr.MustParseIA("1-0")}, {iaM}}
+	// X#1 (P0), Y#1 (P2: same AS number and interface, other ISD), M#1 (P1: same ISD and interface, other AS)
+	intfs = [][]*query.IntfSpec{nil, {is(iaX, 1)}, {is(iaY, 1)}, {is(iaB, 9)}, {is(iaM, 1), is(iaB, 2)}, {is(iaB, 1)}, {is(iaB2, 2)}}
+	starts = [][]addr.IA{nil, {iaX}, {addr.MustParseIA("2-0")}, {addr.MustParseIA("1-0")}, {iaY, iaX}, {iaB}, {iaY}, {iaB2}}
+	ends = [][]addr.IA{nil, {iaB}, {addr.MustParseIA("1-0")}, {iaM}, {iaB2}, {addr.MustParseIA("2-0")}}
 	return
 }
 
@@ -730,10 +734,13 @@ func c27PathDB(t *testing.T, r *mc.Run, phases *[]map[string]any) bool {
 type nqEv struct{ Pair, T uint8 }
 
 func c27NextQuery(t *testing.T, r *mc.Run, phases *[]map[string]any) bool {
-	pairs := [][2]addr.IA{{iaX, iaB}, {iaX, iaY}, {iaB, iaX}} // the third pair is only ever read
+	// the base pair and one pair per key column that differs from it in exactly that column (destination AS,
+	// destination ISD, source AS, source ISD); the last pair is only ever read
+	pairs := [][2]addr.IA{{iaX, iaB}, {iaX, iaM}, {iaX, iaB2}, {iaM, iaB}, {iaY, iaB}, {iaB, iaX}}
+	nWritten := len(pairs) - 1
 	times := []time.Time{c27T0.Add(100 * time.Second), c27T0.Add(200*time.Second + 5), c27T0.Add(300 * time.Second)}
 	var menu []nqEv
-	for p := 0; p < 2; p++ {
+	for p := 0; p < nWritten; p++ {
 		for ti := range times {
 			menu = append(menu, nqEv{uint8(p), uint8(ti)})
 		}
@@ -803,5 +810,11 @@ func c27NextQuery(t *testing.T, r *mc.Run, phases *[]map[string]any) bool {
 		}
 		return storeResult{canon: strings.Join(parts, " "), class: cls, nontr: len(model) > 0}
 	}
-	return runStorePhase(r, storePhase[nqEv]{"nextquery", menu, 10, true, replay}, phases)
+	// 4^5 = 1024 states; merging is cross-checked on the first levels, then the search runs until no new state appears
+	// (quick: all histories of up to 4 events; thorough: until no new state appears)
+	ok := runStorePhase(r, storePhase[nqEv]{"nextquery-merge-checked", menu, 3, true, replay}, phases)
+	if ok {
+		ok = runStorePhase(r, storePhase[nqEv]{"nextquery-deep", menu, mc.Pick(4, 20), false, replay}, phases)
+	}
+	return ok
 }
